@@ -517,6 +517,11 @@ func runParent(c *Check, tier string, seed int64) {
 	newViol := 0
 	knownHit := map[string]int64{}
 	os.MkdirAll(filepath.Join(VerifDir, "replays"), 0o755)
+	if old, _ := filepath.Glob(filepath.Join(VerifDir, "replays", c.ID+"-*.json")); len(old) > 0 {
+		for _, f := range old {
+			os.Remove(f)
+		}
+	}
 	for _, s := range sigs {
 		if what, ok := knownSet[s]; ok {
 			fmt.Printf("KNOWN-FINDING: property=%s %s [signature=%s, %d cases]\n", c.ID, what, s, total.ViolationCnt[s])
